@@ -4,9 +4,16 @@
 pub open spec fn status_mono(a: Status, b: Status) -> bool {
     (a == Status::Cancelled ==> b == Status::Cancelled) && (a == Status::Modified ==> b != Status::NotModified)
 }
+// the visitor keeps its references: what they point to may change, the references themselves are never swapped
+#[verifier::prophetic]
+pub open spec fn refs_kept<'a>(v: OperationTransformVisitor<'a>, v2: OperationTransformVisitor<'a>) -> bool {
+    *final(v2.transform_status) == *final(v.transform_status) && final(v2.ident_provider).st() == final(v.ident_provider).st()
+}
+#[verifier::prophetic]
 pub open spec fn opv_frame<'a>(v: OperationTransformVisitor<'a>, v2: OperationTransformVisitor<'a>) -> bool {
     &&& v2.ctx == v.ctx
     &&& v2.csi_methods == v.csi_methods
+    &&& refs_kept(v, v2)
     &&& status_mono(v.transform_status.status, v2.transform_status.status)
     &&& v2.transform_status.telemetry.kind() == v.transform_status.telemetry.kind()
     &&& (v.transform_status.telemetry.wf() ==> v2.transform_status.telemetry.wf())
@@ -26,15 +33,25 @@ pub broadcast axiom fn axiom_leaf_has_no_hooks(e: Expr)
     ensures #[trigger] hooks(e) == 0;
 // accounting invariant of one visit: the propagation count moves exactly with the number of hook call sites, the file
 // status becomes Modified only if a hook was added, hooks are never removed, the operation pass never cancels.
-pub open spec fn acct<'a>(v: OperationTransformVisitor<'a>, v2: OperationTransformVisitor<'a>, h0: nat, h2: nat) -> bool {
+pub open spec fn acct_ts(t: TransformStatus, t2: TransformStatus, h0: nat, h2: nat) -> bool {
     &&& h2 >= h0
-    &&& (v.transform_status.status != Status::Cancelled && v.transform_status.telemetry.kind() != TelKind::NoOp
-            ==> v2.transform_status.telemetry.count() + h0 == v.transform_status.telemetry.count() + h2)
-    &&& (v.transform_status.telemetry.kind() == TelKind::NoOp ==> v2.transform_status.telemetry.count() == 0)
-    &&& (v.transform_status.status == Status::Cancelled ==> v2.transform_status.telemetry.count() == v.transform_status.telemetry.count())
+    &&& (t.status != Status::Cancelled && t.telemetry.kind() != TelKind::NoOp ==> t2.telemetry.count() + h0 == t.telemetry.count() + h2)
+    &&& (t.telemetry.kind() == TelKind::NoOp ==> t2.telemetry.count() == 0)
+    &&& (t.status == Status::Cancelled ==> t2.telemetry.count() == t.telemetry.count())
+    &&& (t.status == Status::NotModified && t2.status == Status::Modified ==> h2 > h0)
+    &&& (t.status == Status::NotModified && h2 > h0 && t2.status != Status::Cancelled ==> t2.status == Status::Modified)
+    &&& t2.telemetry.kind() == t.telemetry.kind() && (t.telemetry.wf() ==> t2.telemetry.wf())
+    &&& status_mono(t.status, t2.status)
+}
+pub proof fn lemma_acct_ts_trans(a: TransformStatus, b: TransformStatus, c: TransformStatus, h0: nat, h1: nat, h2: nat)
+    requires acct_ts(a, b, h0, h1), acct_ts(b, c, h1, h2), b.status != Status::Cancelled || a.status == Status::Cancelled,
+    ensures acct_ts(a, c, h0, h2),
+{
+}
+// the operation pass itself never cancels and never touches the message
+pub open spec fn acct<'a>(v: OperationTransformVisitor<'a>, v2: OperationTransformVisitor<'a>, h0: nat, h2: nat) -> bool {
+    &&& acct_ts(*v.transform_status, *v2.transform_status, h0, h2)
     &&& (v2.transform_status.status == Status::Cancelled <==> v.transform_status.status == Status::Cancelled)
-    &&& (v.transform_status.status == Status::NotModified && v2.transform_status.status == Status::Modified ==> h2 > h0)
-    &&& (v.transform_status.status == Status::NotModified && h2 > h0 ==> v2.transform_status.status == Status::Modified)
     &&& v2.transform_status.msg == v.transform_status.msg
 }
 // C04: `c` is a call of a configured method in one of the receiver shapes the statement lists (fixed by unit U5's contracts);
@@ -47,6 +64,7 @@ pub uninterp spec fn stmt_children_done(s: Stmt) -> bool;
 
 impl<'a> VisitMutWith<OperationTransformVisitor<'a>> for BinExpr {
     open spec fn vmc_req(self, v: OperationTransformVisitor<'a>) -> bool { v.transform_status.telemetry.wf() }
+    #[verifier::prophetic]
     open spec fn vmc_ens(self, v: OperationTransformVisitor<'a>, s2: BinExpr, v2: OperationTransformVisitor<'a>) -> bool {
         &&& opv_frame(v, v2)
         &&& acct(v, v2, hooks(Expr::Bin(self)), hooks(Expr::Bin(s2)))
@@ -56,6 +74,7 @@ impl<'a> VisitMutWith<OperationTransformVisitor<'a>> for BinExpr {
     #[verifier::external_body]
     fn visit_mut_children_with(&mut self, v: &mut OperationTransformVisitor<'a>) { unimplemented!() }
     open spec fn vm_req(self, v: OperationTransformVisitor<'a>) -> bool { v.transform_status.telemetry.wf() }
+    #[verifier::prophetic]
     open spec fn vm_ens(self, v: OperationTransformVisitor<'a>, s2: BinExpr, v2: OperationTransformVisitor<'a>) -> bool { opv_frame(v, v2) && acct(v, v2, hooks(Expr::Bin(self)), hooks(Expr::Bin(s2))) }
     #[verifier::external_body]
     fn visit_mut_with(&mut self, v: &mut OperationTransformVisitor<'a>) { unimplemented!() }
@@ -63,6 +82,7 @@ impl<'a> VisitMutWith<OperationTransformVisitor<'a>> for BinExpr {
 
 impl<'a> VisitMutWith<OperationTransformVisitor<'a>> for AssignExpr {
     open spec fn vmc_req(self, v: OperationTransformVisitor<'a>) -> bool { v.transform_status.telemetry.wf() }
+    #[verifier::prophetic]
     open spec fn vmc_ens(self, v: OperationTransformVisitor<'a>, s2: AssignExpr, v2: OperationTransformVisitor<'a>) -> bool {
         &&& opv_frame(v, v2)
         &&& acct(v, v2, hooks(Expr::Assign(self)), hooks(Expr::Assign(s2)))
@@ -72,6 +92,7 @@ impl<'a> VisitMutWith<OperationTransformVisitor<'a>> for AssignExpr {
     #[verifier::external_body]
     fn visit_mut_children_with(&mut self, v: &mut OperationTransformVisitor<'a>) { unimplemented!() }
     open spec fn vm_req(self, v: OperationTransformVisitor<'a>) -> bool { v.transform_status.telemetry.wf() }
+    #[verifier::prophetic]
     open spec fn vm_ens(self, v: OperationTransformVisitor<'a>, s2: AssignExpr, v2: OperationTransformVisitor<'a>) -> bool { opv_frame(v, v2) && acct(v, v2, hooks(Expr::Assign(self)), hooks(Expr::Assign(s2))) }
     #[verifier::external_body]
     fn visit_mut_with(&mut self, v: &mut OperationTransformVisitor<'a>) { unimplemented!() }
@@ -79,6 +100,7 @@ impl<'a> VisitMutWith<OperationTransformVisitor<'a>> for AssignExpr {
 
 impl<'a> VisitMutWith<OperationTransformVisitor<'a>> for Tpl {
     open spec fn vmc_req(self, v: OperationTransformVisitor<'a>) -> bool { v.transform_status.telemetry.wf() }
+    #[verifier::prophetic]
     open spec fn vmc_ens(self, v: OperationTransformVisitor<'a>, s2: Tpl, v2: OperationTransformVisitor<'a>) -> bool {
         &&& opv_frame(v, v2)
         &&& acct(v, v2, hooks(Expr::Tpl(self)), hooks(Expr::Tpl(s2)))
@@ -88,6 +110,7 @@ impl<'a> VisitMutWith<OperationTransformVisitor<'a>> for Tpl {
     #[verifier::external_body]
     fn visit_mut_children_with(&mut self, v: &mut OperationTransformVisitor<'a>) { unimplemented!() }
     open spec fn vm_req(self, v: OperationTransformVisitor<'a>) -> bool { v.transform_status.telemetry.wf() }
+    #[verifier::prophetic]
     open spec fn vm_ens(self, v: OperationTransformVisitor<'a>, s2: Tpl, v2: OperationTransformVisitor<'a>) -> bool { opv_frame(v, v2) && acct(v, v2, hooks(Expr::Tpl(self)), hooks(Expr::Tpl(s2))) }
     #[verifier::external_body]
     fn visit_mut_with(&mut self, v: &mut OperationTransformVisitor<'a>) { unimplemented!() }
@@ -95,6 +118,7 @@ impl<'a> VisitMutWith<OperationTransformVisitor<'a>> for Tpl {
 
 impl<'a> VisitMutWith<OperationTransformVisitor<'a>> for CallExpr {
     open spec fn vmc_req(self, v: OperationTransformVisitor<'a>) -> bool { v.transform_status.telemetry.wf() }
+    #[verifier::prophetic]
     open spec fn vmc_ens(self, v: OperationTransformVisitor<'a>, s2: CallExpr, v2: OperationTransformVisitor<'a>) -> bool {
         &&& opv_frame(v, v2)
         &&& acct(v, v2, hooks(Expr::Call(self)), hooks(Expr::Call(s2)))
@@ -104,6 +128,7 @@ impl<'a> VisitMutWith<OperationTransformVisitor<'a>> for CallExpr {
     #[verifier::external_body]
     fn visit_mut_children_with(&mut self, v: &mut OperationTransformVisitor<'a>) { unimplemented!() }
     open spec fn vm_req(self, v: OperationTransformVisitor<'a>) -> bool { v.transform_status.telemetry.wf() }
+    #[verifier::prophetic]
     open spec fn vm_ens(self, v: OperationTransformVisitor<'a>, s2: CallExpr, v2: OperationTransformVisitor<'a>) -> bool { opv_frame(v, v2) && acct(v, v2, hooks(Expr::Call(self)), hooks(Expr::Call(s2))) }
     #[verifier::external_body]
     fn visit_mut_with(&mut self, v: &mut OperationTransformVisitor<'a>) { unimplemented!() }
@@ -111,6 +136,7 @@ impl<'a> VisitMutWith<OperationTransformVisitor<'a>> for CallExpr {
 
 impl<'a> VisitMutWith<OperationTransformVisitor<'a>> for Expr {
     open spec fn vmc_req(self, v: OperationTransformVisitor<'a>) -> bool { v.transform_status.telemetry.wf() }
+    #[verifier::prophetic]
     open spec fn vmc_ens(self, v: OperationTransformVisitor<'a>, s2: Expr, v2: OperationTransformVisitor<'a>) -> bool {
         &&& opv_frame(v, v2)
         &&& acct(v, v2, hooks(self), hooks(s2))
@@ -120,6 +146,7 @@ impl<'a> VisitMutWith<OperationTransformVisitor<'a>> for Expr {
     #[verifier::external_body]
     fn visit_mut_children_with(&mut self, v: &mut OperationTransformVisitor<'a>) { unimplemented!() }
     open spec fn vm_req(self, v: OperationTransformVisitor<'a>) -> bool { v.transform_status.telemetry.wf() }
+    #[verifier::prophetic]
     open spec fn vm_ens(self, v: OperationTransformVisitor<'a>, s2: Expr, v2: OperationTransformVisitor<'a>) -> bool { opv_frame(v, v2) && acct(v, v2, hooks(self), hooks(s2)) }
     #[verifier::external_body]
     fn visit_mut_with(&mut self, v: &mut OperationTransformVisitor<'a>) { unimplemented!() }
@@ -127,6 +154,7 @@ impl<'a> VisitMutWith<OperationTransformVisitor<'a>> for Expr {
 
 impl<'a> VisitMutWith<OperationTransformVisitor<'a>> for Stmt {
     open spec fn vmc_req(self, v: OperationTransformVisitor<'a>) -> bool { v.transform_status.telemetry.wf() }
+    #[verifier::prophetic]
     open spec fn vmc_ens(self, v: OperationTransformVisitor<'a>, s2: Stmt, v2: OperationTransformVisitor<'a>) -> bool {
         &&& opv_frame(v, v2)
         &&& acct(v, v2, stmt_hooks(self), stmt_hooks(s2))
@@ -136,6 +164,7 @@ impl<'a> VisitMutWith<OperationTransformVisitor<'a>> for Stmt {
     #[verifier::external_body]
     fn visit_mut_children_with(&mut self, v: &mut OperationTransformVisitor<'a>) { unimplemented!() }
     open spec fn vm_req(self, v: OperationTransformVisitor<'a>) -> bool { v.transform_status.telemetry.wf() }
+    #[verifier::prophetic]
     open spec fn vm_ens(self, v: OperationTransformVisitor<'a>, s2: Stmt, v2: OperationTransformVisitor<'a>) -> bool { opv_frame(v, v2) && acct(v, v2, stmt_hooks(self), stmt_hooks(s2)) }
     #[verifier::external_body]
     fn visit_mut_with(&mut self, v: &mut OperationTransformVisitor<'a>) { unimplemented!() }
@@ -143,6 +172,7 @@ impl<'a> VisitMutWith<OperationTransformVisitor<'a>> for Stmt {
 
 impl<'a> VisitMutWith<OperationTransformVisitor<'a>> for IfStmt {
     open spec fn vmc_req(self, v: OperationTransformVisitor<'a>) -> bool { v.transform_status.telemetry.wf() }
+    #[verifier::prophetic]
     open spec fn vmc_ens(self, v: OperationTransformVisitor<'a>, s2: IfStmt, v2: OperationTransformVisitor<'a>) -> bool {
         &&& opv_frame(v, v2)
         &&& acct(v, v2, stmt_hooks(Stmt::If(self)), stmt_hooks(Stmt::If(s2)))
@@ -152,6 +182,7 @@ impl<'a> VisitMutWith<OperationTransformVisitor<'a>> for IfStmt {
     #[verifier::external_body]
     fn visit_mut_children_with(&mut self, v: &mut OperationTransformVisitor<'a>) { unimplemented!() }
     open spec fn vm_req(self, v: OperationTransformVisitor<'a>) -> bool { v.transform_status.telemetry.wf() }
+    #[verifier::prophetic]
     open spec fn vm_ens(self, v: OperationTransformVisitor<'a>, s2: IfStmt, v2: OperationTransformVisitor<'a>) -> bool { opv_frame(v, v2) }
     #[verifier::external_body]
     fn visit_mut_with(&mut self, v: &mut OperationTransformVisitor<'a>) { unimplemented!() }
